@@ -108,6 +108,15 @@ def close(s, e, tol):
 UNI = ["\u00e9", "\u00df", "\u00f1", "\u4e2d", "\u6587", "\U0001f600", "\U0001d518", "\ue000", "\ufffd", "\u03a9", "\u0436", "a", "Z", "0", " ", "\u00ff", "\u0100"]
 SPECIAL = ["", "nan", "NaN", "None", "null", "NA", "<NA>", " ", "0", "00", "-1", "1e3", "True", "\t", "a b", "A", "a"]
 LETTERS = "abcdefghijklmnopqrstuvwxyzABCDEFGHIJKLMNOPQRSTUVWXYZ"
+# strings that are equal under NFC / NFD / NFKC but different code-point sequences: (precomposed / compatibility, decomposed / plain)
+EQUIV = [("Kr\u00e4nj", "Kra\u0308nj"), ("\u00c5s", "A\u030as"), ("\ud55c", "\u1112\u1161\u11ab"), ("\u00e9", "e\u0301"),
+         ("\u00f1o", "n\u0303o"), ("\u212b", "\u00c5"), ("\u2126", "\u03a9"), ("\ufb01n", "fin"), ("\u2460", "1"),
+         ("\uff21", "A"), ("\u1e69", "s\u0323\u0307"), ("\u01d6", "u\u0308\u0304")]
+NFC_POOL = [s for pr in EQUIV for s in pr]
+# whitespace-padded variants of a token T (space, tab, NBSP, ideographic space) and whitespace-only cells: all DISTINCT categories
+WS_PADS = ["T", " T", "T ", "\tT", "T\t", "\u00a0T", "T\u00a0", "\u3000T", "T\u3000", " T ", "", " ", "\t", "\u00a0", "\u3000", "  "]
+# cells that look like numbers: distinct strings, distinct categories
+NUMLIKE = ["1", "1.0", "01", "1e3", "1000", "nan", "NaN", "inf", "-inf", "-0", "0", "0.0", "+1", "1.", ".1", "0.1", "1e0", "0x1", "1_0", "10"]
 NAMES = ["f1", "f2", "feature", "x", "y", "é", "中", "user id", "0", "1", "id", "F", "a-b", "w_3", "col:7", "zz", "",
          "Label", "target", "k9", "p AND q", "u AND_REL v"]
 
@@ -124,6 +133,13 @@ def make_values(rng, k, style):
             v = "".join(rng.choice(LETTERS) for _ in range(rng.randint(1, 6)))
         elif style == "unicode":
             v = "".join(rng.choice(UNI + list(LETTERS[:6])) for _ in range(rng.randint(1, 4)))
+        elif style == "nfc":
+            v = rng.choice(NFC_POOL) + ("" if guard < 60 else str(rng.randrange(100)))
+        elif style == "ws":
+            tok = rng.choice(["pc", "x", "\u00e9", "7"]) + ("" if guard < 60 else str(rng.randrange(100)))
+            v = rng.choice(WS_PADS).replace("T", tok)
+        elif style == "numlike":
+            v = rng.choice(NUMLIKE) if guard < 80 else rng.choice(NUMLIKE) + str(rng.randrange(100))
         else:  # mixed
             r = rng.random()
             if r < 0.3 and guard < 200:
@@ -176,7 +192,7 @@ def fill(rng, n, vals, dist):
 
 def new_column(rng, n, existing):
     kind = rng.random()
-    style = rng.choice(["digits", "words", "unicode", "mixed", "mixed"])
+    style = rng.choice(["digits", "words", "unicode", "mixed", "mixed", "nfc", "ws", "numlike"])
     if existing and kind < 0.10:
         return list(rng.choice(existing)), "copy"
     if existing and kind < 0.22:
@@ -243,6 +259,13 @@ def gen_frame(rng, tier, big=False):
     else:
         lab, lk = new_column(rng, n, cols)
         lk = "label:" + lk
+    if not big and len(cols) < 8 and rng.random() < 0.12:
+        cols.append([""] * n)
+        kinds.append("all-empty")
+    if not big and len(cols) < 8 and rng.random() < 0.12:
+        cols.append(list(lab))
+        kinds.append("label-copy")
+    ncols = len(cols) + 1
     pos = rng.randint(0, len(cols))
     cols.insert(pos, lab)
     kinds.insert(pos, lk)
@@ -465,6 +488,70 @@ def reference_cases(rng, tier, heuristics):
     return out
 
 
+def _spelled(rng, lab, options, noise=0.1):
+    """a column whose SPELLING of a token follows the label: row i gets options[k][j] with k random and j chosen by the
+    label value (so spellings that a normalisation would merge carry different information about the label)"""
+    lv = sorted(set(lab))
+    col = []
+    for v in lab:
+        k = rng.randrange(len(options))
+        j = lv.index(v) % len(options[k])
+        if rng.random() < noise:
+            j = rng.randrange(len(options[k]))
+        col.append(options[k][j])
+    return col
+
+
+def edge_cases(rng, tier, heuristics):
+    """edge inputs: canonically equivalent but distinct strings (precomposed / decomposed / compatibility forms, a column
+    written entirely in decomposed form), whitespace-padded variants of a token and whitespace-only cells, number-like cells
+    in ordinary string columns, an all-empty column, a copy of the label, one- and two-row batches, cells >= 64 KiB"""
+    out = []
+
+    def add(names, cols, label, fam, hs, kinds=None, entries=("mrg", "cbr")):
+        base = rng.random() < 0.5
+        for k, h in enumerate(hs):
+            out.append({"names": names, "cols": cols, "label": label, "heuristic": h,
+                        "target_only": base if k % 2 == 0 else not base, "entry": entries[k % len(entries)],
+                        "pool": {"kind": "fake", "ncpus": rng.choice([1, 2, 8])}, "family": fam,
+                        "kinds": kinds or [fam] * len(cols)})
+    for _ in range(1 if tier == "quick" else 4):
+        n = rng.randint(40, 160)
+        lab = [rng.choice(["0", "1"]) for _ in range(n)]
+        # (1) Unicode normal forms
+        city = _spelled(rng, lab, [list(pr) for pr in EQUIV[:6]])
+        compat = _spelled(rng, lab, [list(pr) for pr in EQUIV[5:]])
+        words = [pr[1] for pr in EQUIV[:5]] + ["zu\u0308rich", "o\u0302", "a\u030a"]           # decomposed throughout
+        decomp = [rng.choice(words[:4]) if (v == "1") != (rng.random() < 0.15) else rng.choice(words[4:]) for v in lab]
+        add(["city", "compat", "label", "decomp"], [city, compat, lab, decomp], "label", "unicode-normal-forms", heuristics)
+        # (2) whitespace padding
+        lab2 = [rng.choice(["y", "n", ""]) for _ in range(n)]
+        pads = [["pc", " pc", "\tpc"], ["pc ", "pc\u00a0", "\u3000pc"], ["", " ", "\u00a0"], ["x", "x ", " x"]]
+        padded = _spelled(rng, lab2, pads)
+        blank = _spelled(rng, lab2, [["", " ", "\t"], ["  ", "\u3000", "\u00a0"]], noise=0.2)
+        add(["padded", "blank", "label"], [padded, blank, lab2], "label", "whitespace-padding", heuristics)
+        # (3) number-like cells, an all-empty column, a copy of the label
+        numlike = _spelled(rng, lab, [["1", "1.0"], ["01", "1e0"], ["nan", "NaN"], ["-0", "0"], ["inf", "1e3"], ["1000", "1_0"]])
+        add(["num", "empty", "label", "same"], [numlike, [""] * n, lab, list(lab)], "label", "numberlike-empty-labelcopy", heuristics)
+    # (4) one- and two-row batches (scipy's pearsonr raises on one row on the unchanged tree: left out there)
+    tiny = [([["a"], ["x"], ["1"]], [h for h in heuristics if name_sem(h) != "pearson"]),
+            ([["a", "b"], ["x", "x"], ["1", "0"]], heuristics),
+            ([["a", "a"], ["", " "], ["1", "0"]], heuristics)]
+    for cols, hs in tiny:
+        for entries in (("mrg", "cbr"), ("cbr", "mrg")):
+            add(["f", "g", "label"], cols, "label", "rows=%d" % len(cols[0]), hs, entries=entries)
+    # (5) very long cells: a common 64 KiB prefix, differences only at the very end / in the length
+    for _ in range(1 if tier == "quick" else 2):
+        stem = "".join(rng.choice("ab\u00e9") for _ in range(8)) * 8192            # 65536 code points
+        vals = [stem, stem + "x", stem + "y", stem[:-1]]
+        lab = ["1", "0", "1", "0", "1", "0"]
+        longc = [vals[0], vals[1], vals[0], vals[1], vals[2], vals[3]]
+        other = ["p", "q", "p", "p", "q", "q"]
+        add(["long", "other", "label"], [longc, other, lab], "label", "cells>=64KiB",
+            [h for h in heuristics if name_sem(h) in ("plugin64", "maxcov", "corr32")])
+    return out
+
+
 def load_corpus(pid):
     d = os.path.join(vlib.VERIF, "corpus", pid)
     out = []
@@ -526,7 +613,7 @@ HEADER = ("From Coq Require Import List NArith ZArith QArith.\nFrom Outrank Requ
           "Import ListNotations.\nOpen Scope N_scope.")
 
 
-LARGE = 5000     # frames with more rows are coded by the Python mirror of the model (validated against Coq on all others)
+LARGE = 5000     # frames with more rows (or > 200 000 code points in all) are coded by the Python mirror of the model (validated against Coq on all others)
 
 
 def py_codes(col):
@@ -601,7 +688,8 @@ HEADER2 = ("From Coq Require Import List NArith ZArith.\nFrom Outrank Require Im
 def model_eval(frames, budget):
     """frames: key -> {"cols", "pairs": set((i,j)), "mi": list of (f, t, flag) in priority order}.
     -> key -> (codes, {(i,j): Fraction}, {(f,t,flag): term structure})   [term structures only within the Coq budget]"""
-    big = [k for k in frames if frames[k]["cols"] and len(frames[k]["cols"][0]) > LARGE]
+    big = [k for k in frames if frames[k]["cols"] and (len(frames[k]["cols"][0]) > LARGE
+                                                       or sum(len(v) for c in frames[k]["cols"] for v in c) > 200000)]
     keys = sorted((k for k in frames if k not in big), key=lambda k: -sum(len(c) * len(set(c)) for c in frames[k]["cols"]))
     exprs, plist, qlist = [], [], []
     for k in keys:
@@ -1024,6 +1112,7 @@ def _check(run, replay):
         cases.extend(pool_cases(run.rng, run.tier))
         cases.extend(large_cases(run.rng, run.tier))
         cases.extend(numeric_cases(run.rng, run.tier, heur))
+        cases.extend(edge_cases(run.rng, run.tier, heur))
         cases.extend(reference_cases(run.rng, run.tier, heur))
         # the coded frame handed to the scorer is observed on one case per frame (in-process pools, <= 2000 rows)
         seen_frames = set()
@@ -1057,6 +1146,8 @@ def _check(run, replay):
         bump(hist["heuristic"], c["heuristic"])
         bump(hist["mode"], "target_only" if c["target_only"] else "pairwise")
         bump(hist["entry"], c.get("entry", "mrg") + ("/io%d" % c["interaction_order"] if c.get("interaction_order", 1) != 1 else ""))
+        if c.get("family"):
+            bump(hist["family"], c["family"])
         if c.get("numeric"):
             bump(hist["family"], "declared-numeric columns (%d)" % len(c["numeric"]))
         if c.get("reference_features"):
